@@ -312,7 +312,9 @@ def _weak_cache_model(ctx, rep):
             for op, args in (("__contains__", [key]), ("__getitem__", [key]), ("get", [key, "DEFAULT"]), ("get", [key])):
                 st = {"_dict": dict(table)}
                 try:
-                    res[op + str(len(args))] = MI.call_method(meths[op], st, args, {"__methods__": meths, "__max_iter__": 50})
+                    extra_w = {"__methods__": meths, "__max_iter__": 50}
+                    extra_w["__global_lookup__"] = K.module_function_lookup(ctx, c.module, extra_w)
+                    res[op + str(len(args))] = MI.call_method(meths[op], st, args, extra_w)
                 except MI.Raised as r_:
                     res[op + str(len(args))] = "raises " + r_.name
             want = {"__contains__1": True, "__getitem__1": "PROXY", "get2": "PROXY", "get1": "PROXY"} if alive else \
